@@ -412,6 +412,190 @@ def run_history(job):
     return out
 
 
+# ------------------------------------------------------------------------------ derived operands
+_CANON = {
+    "box": (None, (-0.5, 0.5)),
+    "L": (shapely.geometry.Polygon([(0, 0), (2, 0), (2, 1), (1, 1), (1, 2), (0, 2)]), (0.0, 1.0)),
+    "U": (shapely.geometry.Polygon([(0, 0), (3, 0), (3, 2), (2, 2), (2, 1), (1, 1), (1, 2), (0, 2)]), (0.0, 1.0)),
+}
+
+
+def prism_truth(poly, zlo, zhi, w):
+    """(member, lower bound of the distance to the boundary) of w for the prism poly x [zlo, zhi]"""
+    pt = shapely.geometry.Point(float(w[0]), float(w[1]))
+    inside2 = bool(poly.contains(pt))
+    inz = zlo <= w[2] <= zhi
+    if inside2 and inz:
+        return True, min(float(poly.boundary.distance(pt)), w[2] - zlo, zhi - w[2])
+    return False, max(float(poly.distance(pt)), zlo - w[2], w[2] - zhi)
+
+
+def derived_truth(job, e, p, leaf_regs):
+    """independent (closed-form / third-party) membership of p in the derived operand e and a lower bound of its distance to the
+    operand's boundary; (None, None) = no certificate"""
+    t = e[0]
+    if t == "leaf":
+        spec = job["leaves"][e[1]]
+        m, c, _ = truth_and_clearance(spec, leaf_regs[e[1]], p)
+        return m, c
+    if t == "surfvol":
+        return derived_truth(job, e[1], p, leaf_regs)
+    if t == "op":
+        ma, ca = derived_truth(job, e[2], p, leaf_regs)
+        mb, cb = derived_truth(job, e[3], p, leaf_regs)
+        if ma is None or mb is None:
+            return None, None
+        m = (ma and mb) if e[1] == "intersect" else ((ma or mb) if e[1] == "union" else (ma and not mb))
+        return m, min(ca, cb)           # the boundary of A op B lies in the union of the operands' boundaries
+    if t == "view":
+        v = e[1]
+        M = rotmat(dict(rot=v["rot"]))
+        q = M.T @ (numpy.array(p, dtype=float) - numpy.array(v["pos"], dtype=float))
+        rho = float(numpy.linalg.norm(q))
+        rh = math.hypot(q[0], q[1])
+        az = math.atan2(-q[0], q[1])
+        alt = math.atan2(q[2], rh)
+        h, w_ = math.radians(v["angles"][0]), math.radians(v["angles"][1])
+        D = v["dist"]
+        ins, outs = [0.93 * D - rho], [rho - D]      # the sphere is an icosphere inscribed in the ball of radius D
+        if h < math.tau - 0.017:
+            da = h / 2 - abs(az)
+            ins.append(rh * math.sin(da) if da < math.pi / 2 else rh)
+            outs.append((rh * math.sin(-da) if -da < math.pi / 2 else rh) if da < 0 else -1.0)
+        if w_ < math.pi - 0.017:
+            lim = math.atan(math.tan(w_ / 2) / math.cos(h / 31 / 2))     # flat faces between 32 sampled azimuths
+            ins.append(rho * math.sin(min(w_ / 2 - abs(alt), math.pi / 2)))
+            db = abs(alt) - lim
+            outs.append(rho * math.sin(min(db, math.pi / 2)) if db > 0 else -1.0)
+        margin = 0.02 * D
+        if all(x > 0 for x in ins):
+            return True, min(ins) - margin
+        if max(outs) > 0:
+            return False, max(outs) - margin
+        return None, None
+    if t == "uncentred":
+        u = e[1]
+        M = rotmat(dict(rot=u["rot"]))
+        w = (M.T @ (numpy.array(p, dtype=float) - numpy.array(u["pos"], dtype=float))) / u["scale"] - numpy.array(u["offset"], dtype=float)
+        if u["shape"] == "box":
+            g = numpy.abs(w) - 0.5
+            return (True, float(-g.max()) * u["scale"]) if (g <= 0).all() else (False, float(g.max()) * u["scale"])
+        if u["shape"] == "cyl":
+            m_ = base_mesh("cyl")
+            poly = shapely.geometry.MultiPoint([(float(x), float(y)) for x, y, _ in m_.vertices]).convex_hull
+            zlo, zhi = -0.5, 0.5
+        else:
+            poly, (zlo, zhi) = _CANON[u["shape"]]
+        m, c = prism_truth(poly, zlo, zhi, w)
+        return m, c * u["scale"]
+    if t == "slab":
+        sl = e[1]
+        return prism_truth(shapely.geometry.Polygon(sl["pts"]), sl["z"] - sl["h"] / 2, sl["z"] + sl["h"] / 2, p)
+    raise ValueError(t)
+
+
+def build_derived(job, e, leaf_regs):
+    t = e[0]
+    if t == "leaf":
+        return build(job["leaves"][e[1]])        # a fresh object per use
+    if t == "op":
+        return getattr(build_derived(job, e[2], leaf_regs), e[1])(build_derived(job, e[3], leaf_regs))
+    if t == "surfvol":
+        return build_derived(job, e[1], leaf_regs).getSurfaceRegion().getVolumeRegion()
+    if t == "view":
+        v = e[1]
+        return R.ViewRegion(v["dist"], (math.radians(v["angles"][0]), math.radians(v["angles"][1])), position=Vector(*v["pos"]),
+                            rotation=Orientation.fromEuler(*v["rot"]))
+    if t == "uncentred":
+        u = e[1]
+        m = base_mesh(u["shape"])
+        m.apply_translation(u["offset"])
+        kw = dict(position=Vector(*u["pos"]), rotation=Orientation.fromEuler(*u["rot"]), centerMesh=False)
+        if u["scale"] != 1.0:
+            kw["dimensions"] = tuple(float(x) * u["scale"] for x in m.extents)
+        return R.MeshVolumeRegion(mesh=m, **kw)
+    if t == "slab":
+        sl = e[1]
+        return R.PolygonalFootprintRegion(shapely.geometry.Polygon(sl["pts"])).boundFootprint(sl["z"], sl["h"])
+    raise ValueError(t)
+
+
+def pass1_record(D):
+    """what PASS 1 of MeshVolumeRegion.intersects uses for a region without a precomputed shape: nominal position, fallback
+    circumradius, mesh vertices (optional observation: None when the attribute is not there or the mesh is large)"""
+    try:
+        if not isinstance(D, R.MeshVolumeRegion) or getattr(D, "_shape", None) or getattr(D, "_scaledShape", None):
+            return None
+        verts = D.mesh.vertices
+        if len(verts) > 40:
+            return None
+        return dict(position=[float(t) for t in D.position], r=float(D._circumradius), verts=[[float(x) for x in v] for v in verts])
+    except BaseException:  # noqa
+        return None
+
+
+def run_derived(job):
+    out = dict(id=job["id"])
+    try:
+        leaf_regs = [build(s) for s in job["leaves"]]
+        cand = [tuple(p) for p in job["cand"]]
+        vec = [Vector(*p) for p in cand]
+        for s, reg in zip(job["leaves"], leaf_regs):
+            precompute_sd(s, reg, cand)
+        regs, ops = [], []
+        for e in job["exprs"]:
+            o = obs(lambda: build_derived(job, e, leaf_regs))
+            if "exc" in o:
+                ops.append(dict(exc=o["exc"], msg=o.get("msg")))
+                regs.append(None)
+                continue
+            D = o["v"]
+            regs.append(D)
+            d = {"class": type(D).__name__}
+            d["truth"] = [list(derived_truth(job, e, p, leaf_regs)) for p in cand]
+            d["mem"] = [obs(lambda q=q: bool(D.containsPoint(q))) for q in vec]
+            d["dist"] = [obs(lambda q=q: fl(D.distanceTo(q))) for q in vec]
+            rows = []
+            order = sorted(range(len(cand)), key=lambda t: -(d["truth"][t][1] or 0))
+            nin = nout = 0
+            for t in order:
+                m, c = d["truth"][t]
+                if m is None or c is None or c <= 0.12:
+                    continue
+                if (m and nin >= 5) or (not m and nout >= 4):
+                    continue
+                nin, nout = nin + bool(m), nout + (not m)
+                pr = job["probes"][t]
+                rad = min(0.8 * c, 1.5)                       # circumradius of the probe region
+                dims = [max(0.04, 2 * rad / math.sqrt(3) * f) for f in pr["f"]]
+                if pr["kind"] == "spheroid":
+                    dims = [max(0.04, 2 * rad * f) for f in pr["f"]]
+                cls = R.BoxRegion if pr["kind"] == "box" else R.SpheroidRegion
+                mk = lambda: cls(dimensions=tuple(dims), position=Vector(*cand[t]), rotation=Orientation.fromEuler(*pr["rot"]))
+                rows.append(dict(cand=t, region=dict(kind=pr["kind"], dims=dims, pos=list(cand[t]), rot=pr["rot"]),
+                                 fwd=obs(lambda: bool(D.intersects(mk()))), rev=obs(lambda: bool(mk().intersects(D)))))
+            d["probe_rows"] = rows
+            d["pass1"] = pass1_record(D)
+            if rows:
+                P0 = job["probes"][rows[0]["cand"]]
+                d["pass1_probe"] = pass1_record((R.BoxRegion if rows[0]["region"]["kind"] == "box" else R.SpheroidRegion)(
+                    dimensions=tuple(rows[0]["region"]["dims"]), position=Vector(*rows[0]["region"]["pos"]), rotation=Orientation.fromEuler(*P0["rot"])))
+                d["pass1_probe_row"] = 0
+            ops.append(d)
+        out["operands"] = ops
+        pairs = []
+        for i in range(len(regs)):
+            for j in range(i + 1, len(regs)):
+                if regs[i] is None or regs[j] is None:
+                    continue
+                pairs.append(dict(i=i, j=j, fwd=obs(lambda: bool(regs[i].intersects(regs[j]))), rev=obs(lambda: bool(regs[j].intersects(regs[i])))))
+        out["pairs"] = pairs
+    except BaseException as e:  # noqa
+        import traceback
+        out["crash"] = type(e).__name__ + ": " + str(e)[:300] + " @ " + traceback.format_exc()[-400:]
+    return out
+
+
 # ------------------------------------------------------------------------------ projection along a direction
 def run_project(job):
     out = dict(id=job["id"])
@@ -640,7 +824,7 @@ def main():
     if kind == "dispatch":
         out = probe_dispatch(payload)
     elif kind == "pairs":
-        out = dict(results=[run_history(j) if j.get("kind") == "history" else run_project(j) if j.get("kind") == "project" else run_pair(j)
+        out = dict(results=[run_derived(j) if j.get("kind") == "derived" else run_history(j) if j.get("kind") == "history" else run_project(j) if j.get("kind") == "project" else run_pair(j)
                             for j in payload["jobs"]])
     else:
         raise SystemExit("unknown kind")
